@@ -494,3 +494,21 @@ Definition strip_bom (s : bytes) : option bytes :=
   end.
 Definition parse (s : bytes) : option jv :=
   match strip_bom s with Some s' => parse_body s' | None => None end.
+
+(* several documents in one input (json-parse: the parser's OnlyOne is off): every completed top-level value is
+   delivered and the parser starts afresh; an empty input delivers nothing *)
+Fixpoint prun_multi (st : pstate) (ts : list token) (acc : list jv) : option (list jv) :=
+  match ts with
+  | [] => match st with PS [] None => Some (List.rev acc) | _ => None end
+  | t :: r =>
+    match pstep st t with
+    | PS [] (Some v) => prun_multi (PS [] None) r (v :: acc)
+    | PErr => None
+    | st' => prun_multi st' r acc
+    end
+  end.
+Definition parse_multi (s : bytes) : option (list jv) :=
+  match strip_bom s with
+  | Some s' => match lex s' with Some ts => prun_multi (PS [] None) ts [] | None => None end
+  | None => None
+  end.
